@@ -34,7 +34,10 @@ use sciparse::{
     dataplane_path::model::DpPath,
     identifier::isd_asn::IsdAsn,
     packet::{model::ScionScmpPacket, view::ScionPacketView},
-    payload::scmp::{self, types::ScmpParameterProblemCode},
+    payload::{
+        ProtocolNumber,
+        scmp::{self, types::ScmpParameterProblemCode},
+    },
 };
 use snap_tun::{
     server::{HandleIncomingPacketResult, SnapTunAuthorization, SnapTunServer},
@@ -251,7 +254,10 @@ where
                                             ScionAddr::new(IsdAsn::WILDCARD, from.ip().into()),
                                             &mut target_buf,
                                         ) {
-                                            Ok(n) => {
+                                            Ok(None) => {
+                                                tracing::debug!("Not answering an SCMP error or malformed SCMP packet");
+                                            }
+                                            Ok(Some(n)) => {
                                                 // XXX: `handle_outgoing_packet` allocates a new packet
                                                 // for the response (see comment in impl)
                                                 target_buf.truncate(n);
@@ -407,12 +413,19 @@ where
         }
     }
 
+    /// Builds the SCMP error answering a refused datagram into `target_buf`.
+    ///
+    /// Returns `Ok(None)` if the datagram must not be answered: an SCMP error message or a malformed
+    /// SCMP packet never triggers an SCMP error.
     fn create_scmp_error(
         err: PacketPolicyError,
         local_addr: ScionHostAddr,
         dst_addr: ScionAddr,
         target_buf: &mut Packet,
-    ) -> Result<usize, EncodeError> {
+    ) -> Result<Option<usize>, EncodeError> {
+        if refused_packet_is_scmp_error_or_malformed_scmp(&err) {
+            return Ok(None);
+        }
         let scmp_message = create_inbound_scmp_error(err);
         let scmp_packet_model = ScionScmpPacket::new(
             ScionAddr::new(dst_addr.isd_asn(), local_addr),
@@ -420,8 +433,24 @@ where
             DpPath::Empty,
             scmp_message,
         );
-        scmp_packet_model.try_encode(target_buf)
+        scmp_packet_model.try_encode(target_buf).map(Some)
     }
+}
+
+/// Whether the refused packet is an SCMP packet that carries an error message or is too short to
+/// carry any SCMP message. A datagram that does not parse as a SCION packet at all is neither.
+fn refused_packet_is_scmp_error_or_malformed_scmp(err: &PacketPolicyError) -> bool {
+    let view = match err {
+        PacketPolicyError::MalformedPacket(..) => return false,
+        PacketPolicyError::InvalidSourceAddress(view)
+        | PacketPolicyError::InvalidPathType(view, _) => view,
+    };
+    if view.header().next_header() != ProtocolNumber::Scmp {
+        return false;
+    }
+    // SCMP header: type, code, checksum. Error messages have types below 128.
+    let payload = view.payload();
+    payload.len() < 4 || payload[0] < 128
 }
 
 fn create_inbound_scmp_error(err: PacketPolicyError) -> scmp::model::ScmpMessage {
@@ -542,10 +571,11 @@ pub mod verif {
                         ScionAddr::new(IsdAsn::WILDCARD, peer_ip.into()),
                         &mut target_buf,
                     ) {
-                        Ok(n) => {
+                        Ok(Some(n)) => {
                             target_buf.truncate(n);
                             Inbound::Answer(target_buf[..].to_vec())
                         }
+                        Ok(None) => Inbound::NoAnswer("not answered".to_string()),
                         Err(e) => Inbound::NoAnswer(format!("{e:?}")),
                     }
                 }
